@@ -49,6 +49,18 @@ CLAIMED = {
             'references, every column flag and default kind): identical content after re-parse and byte-identical second rendering.',
             'DESIGN.md 6/C02', 'Seven open findings of the renderer are excluded by narrow regions (see known_findings.json); instances whose '
             'whole domain lies in such a region are reported as excluded, not as held.'),
+    'C05': ('Parsed documents with three tables in two schemas (two sharing the bare name), aliases, same-named enums in two schemas, '
+            'inline / short / block / composite references whose endpoints are addressed by schema.name, bare name or alias (symbolic '
+            'selector per endpoint), indexes, a group, a sticky note and a project: every link is checked by object IDENTITY '
+            '(reference endpoints, back-pointers of columns / indexes / notes, enum-typed columns, group items, lookup by index / '
+            'name / alias, get_refs, exactly one SQL key holder per reference).',
+            'DESIGN.md 6/C05', ''),
+    'C06': ('One rule violation per document with the clashing names chosen independently (the solver / path search finds the '
+            'equality): duplicate tables (schema x name x alias x position x quoting), enums, groups, a table listed twice in a '
+            'group under any addressing, identical references across inline / short / block forms and addressing modes, column-less '
+            'tables, dangling table / column names in references, indexes and groups. Postconditions are IFF: the rule\'s error '
+            'exactly when the rule is broken, otherwise a database holding both declarations.',
+            'DESIGN.md 6/C06', 'Open finding c06_alias_ignores_schema.'),
 }
 _PENDING = 'check under construction in this session (harness not yet committed); not claimed until it runs clean on the unchanged tree'
 NOT_APPLICABLE = {f'C{i:02d}': _PENDING for i in range(1, 19) if f'C{i:02d}' not in CLAIMED}
